@@ -105,6 +105,38 @@ Section SW.
     - cbn. split; [lia|exact Hs].
   Qed.
 
+  (** ... in the usual form: at most N grants in ANY closed window [a, a + w]. *)
+  Lemma windows_ok_app a : forall seen b,
+    windows_ok seen (a ++ b) <-> windows_ok seen a /\ windows_ok (seen ++ a) b.
+  Proof.
+    induction a as [|t a IH]; intros seen b; cbn [app windows_ok]; [rewrite app_nil_r; tauto|].
+    rewrite IH. rewrite <- app_assoc. cbn [app]. tauto.
+  Qed.
+
+  Definition in_range (a x : Z) : bool := (a <=? x) && (x <=? a + wn).
+
+  Lemma range_le_inwin a t l : t <= a + wn ->
+    (length (filter (in_range a) l) <= length (filter (inwin t) l))%nat.
+  Proof.
+    intros Ht. induction l as [|x l IH]; cbn [filter]; [lia|].
+    unfold in_range at 1, inwin at 1.
+    destruct (Z.leb_spec a x), (Z.leb_spec x (a + wn)), (Z.leb_spec (t - wn) x); cbn [andb length]; lia.
+  Qed.
+
+  Lemma windows_any ts a : 0 <= n -> windows_ok [] ts ->
+    (length (filter (in_range a) ts) <= Z.to_nat n)%nat.
+  Proof.
+    intros Hn. induction ts as [|t ts IH] using rev_ind; [cbn; lia|].
+    intros H. apply windows_ok_app in H. destruct H as [H1 H2]. cbn [app windows_ok] in H2. destruct H2 as [H2 _].
+    rewrite filter_app, app_length. cbn [filter]. unfold in_range at 2.
+    destruct (Z.leb_spec a t), (Z.leb_spec t (a + wn)); cbn [andb length]; try (specialize (IH H1); lia).
+    pose proof (range_le_inwin a t ts ltac:(lia)). lia.
+  Qed.
+
+  Theorem sw_any_window ops a : 0 <= n -> sorted ops ->
+    (length (filter (in_range a) (run_times step [] ops)) <= Z.to_nat n)%nat.
+  Proof. intros Hn Hs. apply windows_any; auto. apply sw_never_over_admits; auto. Qed.
+
   (** ** time_until_available *)
   Theorem sw_tua_zero_acquires log now log1 : tua log now = (log1, 0) ->
     snd (acquire log now) = true /\ snd (acquire log1 now) = true.
